@@ -193,6 +193,10 @@ def build_block(bspec, height=None, name=None, cls=None):
         order.append(made[c["name"]])
     if height is not None:
         b.setHeight(height)
+    try:  # block type -> flags (FUEL, CONTROL, ...), as the blueprint path does
+        b.setType(name or bspec.get("kind", "fuel"))
+    except Exception:
+        pass
     return b
 
 
